@@ -267,6 +267,7 @@ func runC04(c *eng.Ctx) {
 	// ---- R04.5 replica progress
 	c.Rule("R04.5", "K3")
 	ruleNewPartitionKnowsOnlyItsOwnProgress(c)
+	ruleProgressIsWithinTheLeadersLog(c)
 	ruleReplicaProgressSources(c)
 	if fn := c.Fn("server.(*replica).updateLatestOffset"); fn != nil {
 		off := p.Field("server", "replica", "offset")
